@@ -2,7 +2,8 @@ package main
 
 // The CLI route: a pool program is run the way cmd.RunScriptFile runs a script file - a file on
 // disk, a fresh parser + VM with the std and php libraries, VM.LoadAndRun, the parser's own
-// ShowControl for whatever comes back, the shutdown callbacks, os.Exit for the status - with
+// ShowControl for whatever comes back or reaches the VM's uncaught handler, the shutdown
+// callbacks, a status - with
 // NOTHING of the process-level output machinery replaced by the harness: data.WriteOutput stays
 // whatever the process has, os.Stdout and os.Stderr are pointed at scratch files and read back
 // byte for byte. This is the observable the property statement names ("output, diagnostics and
@@ -16,6 +17,7 @@ import (
 	"runtime/debug"
 	"strings"
 
+	"github.com/php-any/origami/data"
 	"github.com/php-any/origami/parser"
 	"github.com/php-any/origami/runtime"
 	"github.com/php-any/origami/std"
@@ -85,15 +87,24 @@ func runLikeCLI(dir, name string, sel map[string]int) (o obsv) {
 		std.Load(vm)
 		php.Load(vm)
 		rvm := vm.(*runtime.VM)
+		// The one thing an embedder that runs several programs in a process has to change: the VM's
+		// default handler for an uncaught control prints it and calls os.Exit(1). Here it prints it the
+		// same way (the parser's ShowControl) and remembers the status instead of ending the process.
+		uncaught := false
+		vm.SetThrowControl(func(acl data.Control) {
+			uncaught = true
+			p.ShowControl(acl)
+		})
 		_, acl := rvm.LoadAndRun(file)
 		if acl != nil {
 			p.ShowControl(acl)
-			rvm.RunShutdownCallbacks()
-			o.Kind, o.Exit = "done", 1
-			return
+			uncaught = true
 		}
 		rvm.RunShutdownCallbacks()
-		o.Kind, o.Exit = "done", 0
+		o.Kind = "done"
+		if uncaught {
+			o.Exit = 1
+		}
 	}()
 	os.Stdout, os.Stderr = savedOut, savedErr
 	vshim.OnIter = nil
